@@ -5,7 +5,7 @@ import ast
 
 from sa import dataflow as df
 from sa import loop as lp
-from sa.krylov import buffer_dtype_obligations, closure, first_column_obligation, is_norm_expr, nospace, norm_written, projection_convention
+from sa.krylov import basis_aliasing, buffer_dtype_obligations, clip_certificate, closure, first_column_obligation, is_norm_expr, nospace, norm_written, projection_convention
 
 
 def fn(idx, rep, name, module_suffix="lanczos"):
@@ -24,11 +24,9 @@ def run(idx, rep, tier):
     if not all((lanczos, fact, init, eigs)):
         return
     # ---- cap: max_iters <- min(max_iters, n); cond contains i <= max_iters; i from 1 by +1
-    asg = df.assignments(lanczos.node)
-    clip = [v for v, p, st in asg.get("max_iters", []) if isinstance(v, ast.Call) and nospace(v.func) == "min"]
     a = lanczos.params[0]
-    ok = bool(clip) and "max_iters" in [nospace(x) for x in clip[0].args] and any(nospace(x).replace("[-1]", "[0]").replace("[-2]", "[0]").replace("[1]", "[0]") == f"{a}.shape[0]" for x in clip[0].args)
-    rep.decide(ok, "loop-cap", "lanczos:clip", f"max_iters is clipped to `{ast.unparse(clip[0]) if clip else '-'}`" + ("" if ok else f"; required min(max_iters, {a}.shape[0])"), detail="" if ok else "clip",
+    ok, clip_txt = clip_certificate(lanczos, a)
+    rep.decide(ok, "loop-cap", "lanczos:clip", f"max_iters is clipped to `{clip_txt}`" + ("" if ok else f"; required min(max_iters, {a}.shape[0])"), detail="" if ok else "clip",
                locs=[idx.loc(lanczos.module, lanczos.node)])
     loops = lp.find_loops(idx, fact)
     if not loops:
@@ -56,6 +54,9 @@ def run(idx, rep, tier):
             rep.decide(v, "loop-cap", "lanczos_fact:loop", f"cond contains `{cert['expr']}`; {why}; counter starts at {start}" +
                        ("" if v is not False or okc is False else ": with this start value the comparison allows one step more or less than max_iters"),
                        detail="" if v is not False else "off-by-one", locs=[idx.loc(fact.module, l.call)])
+        okq, whyq = lp.batch_quantifier(idx, l)
+        rep.decide(okq, "batch-quantifier", "lanczos_fact:cond", whyq, detail="" if okq is not False else "quantifier", locs=[idx.loc(fact.module, l.call)])
+        basis_aliasing(idx, rep, l, "lanczos_fact:body")
     # ---- T symmetric by construction
     n_tri = 0
     for c in df.calls(lanczos.node):
@@ -172,6 +173,8 @@ def run(idx, rep, tier):
         rep.decide(ok_, "runner-transparency", "while_loop_winfo", text_, detail="" if ok_ else "extra-exit", locs=[idx.loc(f_.module, node_)])
     rep.floor("buffer-dtype", 2)
     rep.floor("loop-cap", 2)
+    rep.floor("batch-quantifier", 1)
+    rep.floor("basis-aliasing", 1)
     rep.floor("symmetric-T", 2)
     rep.floor("projection", 1)
     rep.floor("first-column", 1)
